@@ -3,5 +3,7 @@
 ares_dns_record_t *vp_absrec_new(unsigned short id);
 void vp_absrec_set_question(ares_dns_record_t *r, const char *name, int qtype, int qclass);
 void vp_absrec_set_ancount(ares_dns_record_t *r, size_t n);
+void vp_absrec_set_opt(ares_dns_record_t *r, int has_opt, size_t options);
+int  vp_absrec_has_opt(const ares_dns_record_t *r);
 extern int vp_absrec_setname_may_fail, vp_absrec_dup_may_fail;
 #endif
